@@ -15,6 +15,9 @@
      STCPProxy.Run / SUDPProxy.Run          px_run: no clean-up on the error path (the only error is "the name is held by
                                             somebody else": a Close there would delete the incumbent's entry by name)
      proxy.Manager.Add / Del                nm_set after a presence test / nm_del
+     wrapQuicStream.Close                   the control connection of a QUIC client: Close ends BOTH directions (CancelRead, then
+                                            Stream.Close), so that the dispatcher's read fails and the teardown (y_end) runs
+     CloseNotifyConn.Close, StatsConn.Close CwOnce of Model/ConnWrap.v
      ProxyBaseConfig.UnmarshalFromMsg       the configured name IS the wire name: the four names RegisterProxy, CloseProxy and
                                             the teardown use (wire name for Exist / Add / the ctl.proxies lookup, pxy.GetName()
                                             for the ctl.proxies insert and Del) are one string in the model *)
@@ -247,5 +250,29 @@ Definition rel_pinned : list (string * list ef) := [
      Ef "assign" ["$recv.LoadBalancer.GroupKey"; "="; "$0.GroupKey"];
      Ef "assign" ["$recv.Metadatas"; "="; "$0.Metas"];
      Ef "assign" ["$recv.Annotations"; "="; "$0.Annotations"]
+  ]);
+  ("pkg/util/net/conn.go:wrapQuicStream.Close", [
+     Ef "call" ["$recv.Stream.CancelRead"; "0"];
+     Ef "ret" ["$recv.Stream.Close()"]
+  ]);
+  ("pkg/util/net/conn.go:CloseNotifyConn.Close", [
+     Ef "local" ["$l0"; ":="; "atomic.SwapInt32(&$recv.closeFlag, 1)"];
+     Ef "if" ["$l0 == 0"];
+     Ef "local" ["$r0"; "="; "$recv.Conn.Close()"];
+     Ef "if" ["$recv.closeFn != nil"];
+     Ef "call" ["$recv.closeFn"];
+     Ef "end" [];
+     Ef "end" [];
+     Ef "ret" []
+  ]);
+  ("pkg/util/net/conn.go:StatsConn.Close", [
+     Ef "local" ["$l0"; ":="; "atomic.SwapInt64(&$recv.closed, 1)"];
+     Ef "if" ["$l0 != 1"];
+     Ef "local" ["$r0"; "="; "$recv.Conn.Close()"];
+     Ef "if" ["$recv.statsFunc != nil"];
+     Ef "call" ["$recv.statsFunc"; "$recv.totalRead"; "$recv.totalWrite"];
+     Ef "end" [];
+     Ef "end" [];
+     Ef "ret" []
   ])
 ].
